@@ -188,7 +188,7 @@ PROPS["C12"] = dict(
     claim="In every instantiated SIMD evaluator path with a linear index (unary, same-shape binary, full reduction; x86 AVX and SSE, float and double): each packed load/store at &p[i] is reachable only through the true edge of (i + lanes) <= size with lanes = register bits / element bits and size the element count, each scalar tail store only through i < size; reduction accumulators are seeded from the op's identity and all identity sources of one instantiation agree; the index functions of the axis-reduction path compare positions with their raw axis parameter, and every call that reaches them passes a visibly normalised axis (R-AXISNORM.caller). The enumerator of the 2-d broadcast binary path is enumerated exhaustively by E1 for small shapes (output (R,C) with R in 1..3 and C crossing pack boundaries, every operand shape that broadcasts to it, pack width 4; width 8 in the thorough tier): every step stays inside output and operands, every output position is produced exactly once, and each lane is paired with NumPy's broadcast partner. The outer enumerator likewise (lhs ranks 1..3, rhs ranks 1..3, last extents below, at and above the pack width): every lane pairs out[p] with lhs[p / numel(rhs)] and rhs[p % numel(rhs)]. The axis-reduction enumerator likewise (ranks 1..3, every axis, horizontal and vertical kinds): every input element is accumulated exactly once into the output position with the reduced coordinate dropped. The matmul inner index function likewise (every product of a row with a column exactly once, lanes paired by the same inner index). (E1 c12b_simd_eval / c12c_simd_binary, VALUE level, compiler-vector-extension back end, 128 bit and in the thorough tier 256 bit, fixed-buffer arrays with symbolic element values) the array returned by evaluating with a SIMD context equals the definition at every index: add.reduce / multiply.reduce of INTEGER data over every axis of 2-d and 3-d arrays (negative axes, unit extents, packs plus tails), over the whole array, with keepdims True / False / None and with an initial value; add / multiply / subtract of 1-d int, float and double arrays for every element count 1..9 (thorough 1..17), bit for bit for floating point; add over every 2-d broadcast pattern; sqrt / floor / ceil; multiply.outer; matmul with a column-major right operand. (c12d_simd_x86) the same element-wise obligations (1-d add / subtract / multiply, 2-d broadcast add, multiply.outer, sqrt; float and double, bit for bit) for the x86 SSE and AVX intrinsic back ends. Reductions and matmul with the x86 / SIMDe back ends at value level, floating-point reductions and shapes beyond the listed ones are not decided.",
     note=E2_NOTE + " Dominance is computed on clang's CFG of the instantiated evaluator members (if-constexpr resolved). " + E1_NOTE,
     technique="static: CFG dominance rule over instantiated evaluator code (custom libTooling extractor), sibling agreement of identity sources and of the float/double back-end tables; " + E1_TECH + " (exhaustive small-shape enumeration of the broadcast enumerator)",
-    e1=[dict(tu="c12_enum.cpp"), dict(tu="c12b_simd_eval.cpp"), dict(tu="c12c_simd_binary.cpp", flags=["-fno-math-errno"]), dict(tu="c12c_simd_binary.cpp", flags=["-fno-math-errno", "-DC12_CTX=simd::vector_256"], thorough_only=True),
+    e1=[dict(tu="c12_enum.cpp"), dict(tu="c12b_simd_eval.cpp"), dict(tu="c12c_simd_binary.cpp", flags=["-fno-math-errno"]), dict(tu="c12c_simd_binary.cpp", flags=["-fno-math-errno", "-DC12_CTX=simd::vector_256", "-DC12C_NO_39"], thorough_only=True),
         dict(tu="c12d_simd_x86.cpp", flags=["-fno-math-errno", "-DC12_CTX=simd::x86_SSE"]), dict(tu="c12d_simd_x86.cpp", flags=["-fno-math-errno", "-mavx2", "-mfma", "-DC12_CTX=simd::x86_AVX"])],
     e2=[dict(rule="R-SIMD"), dict(rule="R-AXISNORM.simd"), dict(rule="R-SIMDSIB"), dict(rule="R-SIMDATTR")],
     rule="E2: one instance per packed access / scalar tail store / accumulator seed in each instantiated evaluator member; distinct by (instantiation, source line)",
